@@ -31,6 +31,7 @@ fn run(prop: &str, unit: &str, outp: &str) {
         strict_unexplored: props::strict_unexplored(prop),
         late_timeout_s: env_u64("VERIF_LATE_TIMEOUT", 2),
         threads: env_u64("VERIF_THREADS", 4) as usize,
+        flip_timeout_s: env_u64("VERIF_FLIP_TIMEOUT", env_u64("VERIF_QTIMEOUT", 30)),
     };
     let mut ex = Explorer::new(opts);
     let rep = ex.run_unit(unit, &|| props::scenario(prop, &u));
